@@ -158,6 +158,10 @@ def gen_src(rng, sid='PS', ncallouts=None, kind=None, shapes=None):
     callouts = None
     if ncallouts is not None:
         lst = [gen_callout(rng, shapes[i] if shapes else None) for i in range(ncallouts)]
+        if not shapes and len(lst) >= 2 and rng.random() < .25:      # the same callout listed twice
+            import copy
+            a, b = rng.sample(range(len(lst)), 2)
+            lst[b] = copy.deepcopy(lst[a])
         callouts = dict(id=0xC0, flags=rng.randrange(256), list=lst)
     flags = rng.randrange(256) & 0xFE
     if callouts is not None:
@@ -299,6 +303,7 @@ def gen_section(rng, kind, creator='O'):
 def gen_pel(rng, nsecs=None, creator=None, kinds=None, sev=None, flags=None, eid=None):
     ph = gen_ph(rng, creator, eid)
     cr = chr(ph['creator'])
+    free = kinds is None
     if kinds is None:
         n = rng.choice([0, 1, 2, 3, 4, 5, 8]) if nsecs is None else nsecs
         kinds = []
@@ -307,4 +312,9 @@ def gen_pel(rng, nsecs=None, creator=None, kinds=None, sev=None, flags=None, eid
         while len(kinds) < n:
             kinds.append(rng.choice(KINDS))
     secs = [gen_section(rng, k, cr) for k in kinds]
+    if free and len(secs) >= 2 and rng.random() < .12:      # one section twice, byte for byte
+        import copy
+        a, b = rng.sample(range(len(secs)), 2)
+        if secs[a]['kind'] == secs[b]['kind'] or (a > 0 and b > 0 and secs[a]['kind'] != 'SRC' and secs[b]['kind'] != 'SRC'):
+            secs[b] = copy.deepcopy(secs[a])
     return dict(ph=ph, uh=gen_uh(rng, sev, flags), secs=secs)
